@@ -294,61 +294,61 @@ harnesses! {
     c03_full_brb_1 { prop: C03, feat: "c03", tier: thorough, mode: leaf, unwind: 3, caps: "drop=1" } => |s| insn::c03_rel(s, 97, 98, 0, true);
     // ---- C04: arbitrary operand vectors (any kind, count 0-3, any register, any value)
     c04_rej_add { prop: C04, feat: "c04", tier: quick, mode: leaf, unwind: 3, caps: "drop=1" } => |s| insn::c04_rej(s, 0, 1, false);
-    c04_rej_adc { prop: C04, feat: "c04", tier: thorough, mode: leaf, unwind: 3, caps: "drop=1" } => |s| insn::c04_rej(s, 1, 2, false);
-    c04_rej_sub { prop: C04, feat: "c04", tier: thorough, mode: leaf, unwind: 3, caps: "drop=1" } => |s| insn::c04_rej(s, 2, 3, false);
-    c04_rej_sbc { prop: C04, feat: "c04", tier: thorough, mode: leaf, unwind: 3, caps: "drop=1" } => |s| insn::c04_rej(s, 3, 4, false);
-    c04_rej_and { prop: C04, feat: "c04", tier: thorough, mode: leaf, unwind: 3, caps: "drop=1" } => |s| insn::c04_rej(s, 4, 5, false);
-    c04_rej_or { prop: C04, feat: "c04", tier: thorough, mode: leaf, unwind: 3, caps: "drop=1" } => |s| insn::c04_rej(s, 5, 6, false);
-    c04_rej_eor { prop: C04, feat: "c04", tier: thorough, mode: leaf, unwind: 3, caps: "drop=1" } => |s| insn::c04_rej(s, 6, 7, false);
-    c04_rej_cpse { prop: C04, feat: "c04", tier: thorough, mode: leaf, unwind: 3, caps: "drop=1" } => |s| insn::c04_rej(s, 7, 8, false);
-    c04_rej_cp { prop: C04, feat: "c04", tier: thorough, mode: leaf, unwind: 3, caps: "drop=1" } => |s| insn::c04_rej(s, 8, 9, false);
-    c04_rej_cpc { prop: C04, feat: "c04", tier: thorough, mode: leaf, unwind: 3, caps: "drop=1" } => |s| insn::c04_rej(s, 9, 10, false);
-    c04_rej_mov { prop: C04, feat: "c04", tier: thorough, mode: leaf, unwind: 3, caps: "drop=1" } => |s| insn::c04_rej(s, 10, 11, false);
-    c04_rej_mul { prop: C04, feat: "c04", tier: thorough, mode: leaf, unwind: 3, caps: "drop=1" } => |s| insn::c04_rej(s, 11, 12, false);
+    c04_rej_adc { prop: C04, feat: "c04", tier: quick, mode: leaf, unwind: 3, caps: "drop=1" } => |s| insn::c04_rej(s, 1, 2, false);
+    c04_rej_sub { prop: C04, feat: "c04", tier: quick, mode: leaf, unwind: 3, caps: "drop=1" } => |s| insn::c04_rej(s, 2, 3, false);
+    c04_rej_sbc { prop: C04, feat: "c04", tier: quick, mode: leaf, unwind: 3, caps: "drop=1" } => |s| insn::c04_rej(s, 3, 4, false);
+    c04_rej_and { prop: C04, feat: "c04", tier: quick, mode: leaf, unwind: 3, caps: "drop=1" } => |s| insn::c04_rej(s, 4, 5, false);
+    c04_rej_or { prop: C04, feat: "c04", tier: quick, mode: leaf, unwind: 3, caps: "drop=1" } => |s| insn::c04_rej(s, 5, 6, false);
+    c04_rej_eor { prop: C04, feat: "c04", tier: quick, mode: leaf, unwind: 3, caps: "drop=1" } => |s| insn::c04_rej(s, 6, 7, false);
+    c04_rej_cpse { prop: C04, feat: "c04", tier: quick, mode: leaf, unwind: 3, caps: "drop=1" } => |s| insn::c04_rej(s, 7, 8, false);
+    c04_rej_cp { prop: C04, feat: "c04", tier: quick, mode: leaf, unwind: 3, caps: "drop=1" } => |s| insn::c04_rej(s, 8, 9, false);
+    c04_rej_cpc { prop: C04, feat: "c04", tier: quick, mode: leaf, unwind: 3, caps: "drop=1" } => |s| insn::c04_rej(s, 9, 10, false);
+    c04_rej_mov { prop: C04, feat: "c04", tier: quick, mode: leaf, unwind: 3, caps: "drop=1" } => |s| insn::c04_rej(s, 10, 11, false);
+    c04_rej_mul { prop: C04, feat: "c04", tier: quick, mode: leaf, unwind: 3, caps: "drop=1" } => |s| insn::c04_rej(s, 11, 12, false);
     c04_rej_adiw { prop: C04, feat: "c04", tier: quick, mode: leaf, unwind: 3, caps: "drop=1" } => |s| insn::c04_rej(s, 12, 13, false);
-    c04_rej_sbiw { prop: C04, feat: "c04", tier: thorough, mode: leaf, unwind: 3, caps: "drop=1" } => |s| insn::c04_rej(s, 13, 14, false);
+    c04_rej_sbiw { prop: C04, feat: "c04", tier: quick, mode: leaf, unwind: 3, caps: "drop=1" } => |s| insn::c04_rej(s, 13, 14, false);
     c04_rej_subi { prop: C04, feat: "c04", tier: quick, mode: leaf, unwind: 3, caps: "drop=1" } => |s| insn::c04_rej(s, 14, 15, false);
-    c04_rej_sbci { prop: C04, feat: "c04", tier: thorough, mode: leaf, unwind: 3, caps: "drop=1" } => |s| insn::c04_rej(s, 15, 16, false);
-    c04_rej_andi { prop: C04, feat: "c04", tier: thorough, mode: leaf, unwind: 3, caps: "drop=1" } => |s| insn::c04_rej(s, 16, 17, false);
-    c04_rej_ori { prop: C04, feat: "c04", tier: thorough, mode: leaf, unwind: 3, caps: "drop=1" } => |s| insn::c04_rej(s, 17, 18, false);
-    c04_rej_sbr { prop: C04, feat: "c04", tier: thorough, mode: leaf, unwind: 3, caps: "drop=1" } => |s| insn::c04_rej(s, 18, 19, false);
+    c04_rej_sbci { prop: C04, feat: "c04", tier: quick, mode: leaf, unwind: 3, caps: "drop=1" } => |s| insn::c04_rej(s, 15, 16, false);
+    c04_rej_andi { prop: C04, feat: "c04", tier: quick, mode: leaf, unwind: 3, caps: "drop=1" } => |s| insn::c04_rej(s, 16, 17, false);
+    c04_rej_ori { prop: C04, feat: "c04", tier: quick, mode: leaf, unwind: 3, caps: "drop=1" } => |s| insn::c04_rej(s, 17, 18, false);
+    c04_rej_sbr { prop: C04, feat: "c04", tier: quick, mode: leaf, unwind: 3, caps: "drop=1" } => |s| insn::c04_rej(s, 18, 19, false);
     c04_rej_cbr { prop: C04, feat: "c04", tier: quick, mode: leaf, unwind: 3, caps: "drop=1" } => |s| insn::c04_rej(s, 19, 20, false);
-    c04_rej_cpi { prop: C04, feat: "c04", tier: thorough, mode: leaf, unwind: 3, caps: "drop=1" } => |s| insn::c04_rej(s, 20, 21, false);
-    c04_rej_ldi { prop: C04, feat: "c04", tier: thorough, mode: leaf, unwind: 3, caps: "drop=1" } => |s| insn::c04_rej(s, 21, 22, false);
+    c04_rej_cpi { prop: C04, feat: "c04", tier: quick, mode: leaf, unwind: 3, caps: "drop=1" } => |s| insn::c04_rej(s, 20, 21, false);
+    c04_rej_ldi { prop: C04, feat: "c04", tier: quick, mode: leaf, unwind: 3, caps: "drop=1" } => |s| insn::c04_rej(s, 21, 22, false);
     c04_rej_com { prop: C04, feat: "c04", tier: quick, mode: leaf, unwind: 3, caps: "drop=1" } => |s| insn::c04_rej(s, 22, 23, false);
-    c04_rej_neg { prop: C04, feat: "c04", tier: thorough, mode: leaf, unwind: 3, caps: "drop=1" } => |s| insn::c04_rej(s, 23, 24, false);
-    c04_rej_inc { prop: C04, feat: "c04", tier: thorough, mode: leaf, unwind: 3, caps: "drop=1" } => |s| insn::c04_rej(s, 24, 25, false);
-    c04_rej_dec { prop: C04, feat: "c04", tier: thorough, mode: leaf, unwind: 3, caps: "drop=1" } => |s| insn::c04_rej(s, 25, 26, false);
-    c04_rej_push { prop: C04, feat: "c04", tier: thorough, mode: leaf, unwind: 3, caps: "drop=1" } => |s| insn::c04_rej(s, 26, 27, false);
-    c04_rej_pop { prop: C04, feat: "c04", tier: thorough, mode: leaf, unwind: 3, caps: "drop=1" } => |s| insn::c04_rej(s, 27, 28, false);
-    c04_rej_lsr { prop: C04, feat: "c04", tier: thorough, mode: leaf, unwind: 3, caps: "drop=1" } => |s| insn::c04_rej(s, 28, 29, false);
-    c04_rej_ror { prop: C04, feat: "c04", tier: thorough, mode: leaf, unwind: 3, caps: "drop=1" } => |s| insn::c04_rej(s, 29, 30, false);
-    c04_rej_asr { prop: C04, feat: "c04", tier: thorough, mode: leaf, unwind: 3, caps: "drop=1" } => |s| insn::c04_rej(s, 30, 31, false);
-    c04_rej_swap { prop: C04, feat: "c04", tier: thorough, mode: leaf, unwind: 3, caps: "drop=1" } => |s| insn::c04_rej(s, 31, 32, false);
+    c04_rej_neg { prop: C04, feat: "c04", tier: quick, mode: leaf, unwind: 3, caps: "drop=1" } => |s| insn::c04_rej(s, 23, 24, false);
+    c04_rej_inc { prop: C04, feat: "c04", tier: quick, mode: leaf, unwind: 3, caps: "drop=1" } => |s| insn::c04_rej(s, 24, 25, false);
+    c04_rej_dec { prop: C04, feat: "c04", tier: quick, mode: leaf, unwind: 3, caps: "drop=1" } => |s| insn::c04_rej(s, 25, 26, false);
+    c04_rej_push { prop: C04, feat: "c04", tier: quick, mode: leaf, unwind: 3, caps: "drop=1" } => |s| insn::c04_rej(s, 26, 27, false);
+    c04_rej_pop { prop: C04, feat: "c04", tier: quick, mode: leaf, unwind: 3, caps: "drop=1" } => |s| insn::c04_rej(s, 27, 28, false);
+    c04_rej_lsr { prop: C04, feat: "c04", tier: quick, mode: leaf, unwind: 3, caps: "drop=1" } => |s| insn::c04_rej(s, 28, 29, false);
+    c04_rej_ror { prop: C04, feat: "c04", tier: quick, mode: leaf, unwind: 3, caps: "drop=1" } => |s| insn::c04_rej(s, 29, 30, false);
+    c04_rej_asr { prop: C04, feat: "c04", tier: quick, mode: leaf, unwind: 3, caps: "drop=1" } => |s| insn::c04_rej(s, 30, 31, false);
+    c04_rej_swap { prop: C04, feat: "c04", tier: quick, mode: leaf, unwind: 3, caps: "drop=1" } => |s| insn::c04_rej(s, 31, 32, false);
     c04_rej_tst { prop: C04, feat: "c04", tier: quick, mode: leaf, unwind: 3, caps: "drop=1" } => |s| insn::c04_rej(s, 32, 33, false);
-    c04_rej_clr { prop: C04, feat: "c04", tier: thorough, mode: leaf, unwind: 3, caps: "drop=1" } => |s| insn::c04_rej(s, 33, 34, false);
-    c04_rej_lsl { prop: C04, feat: "c04", tier: thorough, mode: leaf, unwind: 3, caps: "drop=1" } => |s| insn::c04_rej(s, 34, 35, false);
-    c04_rej_rol { prop: C04, feat: "c04", tier: thorough, mode: leaf, unwind: 3, caps: "drop=1" } => |s| insn::c04_rej(s, 35, 36, false);
+    c04_rej_clr { prop: C04, feat: "c04", tier: quick, mode: leaf, unwind: 3, caps: "drop=1" } => |s| insn::c04_rej(s, 33, 34, false);
+    c04_rej_lsl { prop: C04, feat: "c04", tier: quick, mode: leaf, unwind: 3, caps: "drop=1" } => |s| insn::c04_rej(s, 34, 35, false);
+    c04_rej_rol { prop: C04, feat: "c04", tier: quick, mode: leaf, unwind: 3, caps: "drop=1" } => |s| insn::c04_rej(s, 35, 36, false);
     c04_rej_ser { prop: C04, feat: "c04", tier: quick, mode: leaf, unwind: 3, caps: "drop=1" } => |s| insn::c04_rej(s, 36, 37, false);
     c04_rej_muls { prop: C04, feat: "c04", tier: quick, mode: leaf, unwind: 3, caps: "drop=1" } => |s| insn::c04_rej(s, 37, 38, false);
     c04_rej_mulsu { prop: C04, feat: "c04", tier: quick, mode: leaf, unwind: 3, caps: "drop=1" } => |s| insn::c04_rej(s, 38, 39, false);
-    c04_rej_fmul { prop: C04, feat: "c04", tier: thorough, mode: leaf, unwind: 3, caps: "drop=1" } => |s| insn::c04_rej(s, 39, 40, false);
-    c04_rej_fmuls { prop: C04, feat: "c04", tier: thorough, mode: leaf, unwind: 3, caps: "drop=1" } => |s| insn::c04_rej(s, 40, 41, false);
-    c04_rej_fmulsu { prop: C04, feat: "c04", tier: thorough, mode: leaf, unwind: 3, caps: "drop=1" } => |s| insn::c04_rej(s, 41, 42, false);
+    c04_rej_fmul { prop: C04, feat: "c04", tier: quick, mode: leaf, unwind: 3, caps: "drop=1" } => |s| insn::c04_rej(s, 39, 40, false);
+    c04_rej_fmuls { prop: C04, feat: "c04", tier: quick, mode: leaf, unwind: 3, caps: "drop=1" } => |s| insn::c04_rej(s, 40, 41, false);
+    c04_rej_fmulsu { prop: C04, feat: "c04", tier: quick, mode: leaf, unwind: 3, caps: "drop=1" } => |s| insn::c04_rej(s, 41, 42, false);
     c04_rej_rjmp { prop: C04, feat: "c04", tier: quick, mode: leaf, unwind: 3, caps: "drop=1" } => |s| insn::c04_rej(s, 42, 43, false);
-    c04_rej_rcall { prop: C04, feat: "c04", tier: thorough, mode: leaf, unwind: 3, caps: "drop=1" } => |s| insn::c04_rej(s, 43, 44, false);
+    c04_rej_rcall { prop: C04, feat: "c04", tier: quick, mode: leaf, unwind: 3, caps: "drop=1" } => |s| insn::c04_rej(s, 43, 44, false);
     c04_rej_jmp { prop: C04, feat: "c04", tier: quick, mode: leaf, unwind: 3, caps: "drop=1" } => |s| insn::c04_rej(s, 44, 45, false);
-    c04_rej_call { prop: C04, feat: "c04", tier: thorough, mode: leaf, unwind: 3, caps: "drop=1" } => |s| insn::c04_rej(s, 45, 46, false);
-    c04_rej_sbic { prop: C04, feat: "c04", tier: thorough, mode: leaf, unwind: 3, caps: "drop=1" } => |s| insn::c04_rej(s, 46, 47, false);
-    c04_rej_sbis { prop: C04, feat: "c04", tier: thorough, mode: leaf, unwind: 3, caps: "drop=1" } => |s| insn::c04_rej(s, 47, 48, false);
-    c04_rej_cbi { prop: C04, feat: "c04", tier: thorough, mode: leaf, unwind: 3, caps: "drop=1" } => |s| insn::c04_rej(s, 48, 49, false);
+    c04_rej_call { prop: C04, feat: "c04", tier: quick, mode: leaf, unwind: 3, caps: "drop=1" } => |s| insn::c04_rej(s, 45, 46, false);
+    c04_rej_sbic { prop: C04, feat: "c04", tier: quick, mode: leaf, unwind: 3, caps: "drop=1" } => |s| insn::c04_rej(s, 46, 47, false);
+    c04_rej_sbis { prop: C04, feat: "c04", tier: quick, mode: leaf, unwind: 3, caps: "drop=1" } => |s| insn::c04_rej(s, 47, 48, false);
+    c04_rej_cbi { prop: C04, feat: "c04", tier: quick, mode: leaf, unwind: 3, caps: "drop=1" } => |s| insn::c04_rej(s, 48, 49, false);
     c04_rej_sbi { prop: C04, feat: "c04", tier: quick, mode: leaf, unwind: 3, caps: "drop=1" } => |s| insn::c04_rej(s, 49, 50, false);
     c04_rej_sbrc { prop: C04, feat: "c04", tier: quick, mode: leaf, unwind: 3, caps: "drop=1" } => |s| insn::c04_rej(s, 50, 51, false);
-    c04_rej_sbrs { prop: C04, feat: "c04", tier: thorough, mode: leaf, unwind: 3, caps: "drop=1" } => |s| insn::c04_rej(s, 51, 52, false);
-    c04_rej_bst { prop: C04, feat: "c04", tier: thorough, mode: leaf, unwind: 3, caps: "drop=1" } => |s| insn::c04_rej(s, 52, 53, false);
-    c04_rej_bld { prop: C04, feat: "c04", tier: thorough, mode: leaf, unwind: 3, caps: "drop=1" } => |s| insn::c04_rej(s, 53, 54, false);
+    c04_rej_sbrs { prop: C04, feat: "c04", tier: quick, mode: leaf, unwind: 3, caps: "drop=1" } => |s| insn::c04_rej(s, 51, 52, false);
+    c04_rej_bst { prop: C04, feat: "c04", tier: quick, mode: leaf, unwind: 3, caps: "drop=1" } => |s| insn::c04_rej(s, 52, 53, false);
+    c04_rej_bld { prop: C04, feat: "c04", tier: quick, mode: leaf, unwind: 3, caps: "drop=1" } => |s| insn::c04_rej(s, 53, 54, false);
     c04_rej_bset { prop: C04, feat: "c04", tier: quick, mode: leaf, unwind: 3, caps: "drop=1" } => |s| insn::c04_rej(s, 54, 55, false);
-    c04_rej_bclr { prop: C04, feat: "c04", tier: thorough, mode: leaf, unwind: 3, caps: "drop=1" } => |s| insn::c04_rej(s, 55, 56, false);
+    c04_rej_bclr { prop: C04, feat: "c04", tier: quick, mode: leaf, unwind: 3, caps: "drop=1" } => |s| insn::c04_rej(s, 55, 56, false);
     c04_rej_movw { prop: C04, feat: "c04", tier: quick, mode: leaf, unwind: 3, caps: "drop=1" } => |s| insn::c04_rej(s, 56, 57, false);
     c04_rej_lds { prop: C04, feat: "c04", tier: quick, mode: leaf, unwind: 3, caps: "drop=1" } => |s| insn::c04_rej(s, 57, 58, false);
     c04_rej_sts { prop: C04, feat: "c04", tier: quick, mode: leaf, unwind: 3, caps: "drop=1" } => |s| insn::c04_rej(s, 58, 59, false);
@@ -360,53 +360,53 @@ harnesses! {
     c04_rej_elpm { prop: C04, feat: "c04", tier: quick, mode: leaf, unwind: 3, caps: "drop=1" } => |s| insn::c04_rej(s, 64, 65, false);
     c04_rej_in { prop: C04, feat: "c04", tier: quick, mode: leaf, unwind: 3, caps: "drop=1" } => |s| insn::c04_rej(s, 65, 66, false);
     c04_rej_out { prop: C04, feat: "c04", tier: quick, mode: leaf, unwind: 3, caps: "drop=1" } => |s| insn::c04_rej(s, 66, 67, false);
-    c04_rej_ijmp { prop: C04, feat: "c04", tier: thorough, mode: leaf, unwind: 3, caps: "drop=1" } => |s| insn::c04_rej(s, 67, 68, false);
-    c04_rej_eijmp { prop: C04, feat: "c04", tier: thorough, mode: leaf, unwind: 3, caps: "drop=1" } => |s| insn::c04_rej(s, 68, 69, false);
-    c04_rej_icall { prop: C04, feat: "c04", tier: thorough, mode: leaf, unwind: 3, caps: "drop=1" } => |s| insn::c04_rej(s, 69, 70, false);
-    c04_rej_eicall { prop: C04, feat: "c04", tier: thorough, mode: leaf, unwind: 3, caps: "drop=1" } => |s| insn::c04_rej(s, 70, 71, false);
-    c04_rej_ret { prop: C04, feat: "c04", tier: thorough, mode: leaf, unwind: 3, caps: "drop=1" } => |s| insn::c04_rej(s, 71, 72, false);
-    c04_rej_reti { prop: C04, feat: "c04", tier: thorough, mode: leaf, unwind: 3, caps: "drop=1" } => |s| insn::c04_rej(s, 72, 73, false);
-    c04_rej_spm { prop: C04, feat: "c04", tier: thorough, mode: leaf, unwind: 3, caps: "drop=1" } => |s| insn::c04_rej(s, 73, 74, false);
-    c04_rej_break { prop: C04, feat: "c04", tier: thorough, mode: leaf, unwind: 3, caps: "drop=1" } => |s| insn::c04_rej(s, 74, 75, false);
+    c04_rej_ijmp { prop: C04, feat: "c04", tier: quick, mode: leaf, unwind: 3, caps: "drop=1" } => |s| insn::c04_rej(s, 67, 68, false);
+    c04_rej_eijmp { prop: C04, feat: "c04", tier: quick, mode: leaf, unwind: 3, caps: "drop=1" } => |s| insn::c04_rej(s, 68, 69, false);
+    c04_rej_icall { prop: C04, feat: "c04", tier: quick, mode: leaf, unwind: 3, caps: "drop=1" } => |s| insn::c04_rej(s, 69, 70, false);
+    c04_rej_eicall { prop: C04, feat: "c04", tier: quick, mode: leaf, unwind: 3, caps: "drop=1" } => |s| insn::c04_rej(s, 70, 71, false);
+    c04_rej_ret { prop: C04, feat: "c04", tier: quick, mode: leaf, unwind: 3, caps: "drop=1" } => |s| insn::c04_rej(s, 71, 72, false);
+    c04_rej_reti { prop: C04, feat: "c04", tier: quick, mode: leaf, unwind: 3, caps: "drop=1" } => |s| insn::c04_rej(s, 72, 73, false);
+    c04_rej_spm { prop: C04, feat: "c04", tier: quick, mode: leaf, unwind: 3, caps: "drop=1" } => |s| insn::c04_rej(s, 73, 74, false);
+    c04_rej_break { prop: C04, feat: "c04", tier: quick, mode: leaf, unwind: 3, caps: "drop=1" } => |s| insn::c04_rej(s, 74, 75, false);
     c04_rej_nop { prop: C04, feat: "c04", tier: quick, mode: leaf, unwind: 3, caps: "drop=1" } => |s| insn::c04_rej(s, 75, 76, false);
-    c04_rej_sleep { prop: C04, feat: "c04", tier: thorough, mode: leaf, unwind: 3, caps: "drop=1" } => |s| insn::c04_rej(s, 76, 77, false);
-    c04_rej_wdr { prop: C04, feat: "c04", tier: thorough, mode: leaf, unwind: 3, caps: "drop=1" } => |s| insn::c04_rej(s, 77, 78, false);
+    c04_rej_sleep { prop: C04, feat: "c04", tier: quick, mode: leaf, unwind: 3, caps: "drop=1" } => |s| insn::c04_rej(s, 76, 77, false);
+    c04_rej_wdr { prop: C04, feat: "c04", tier: quick, mode: leaf, unwind: 3, caps: "drop=1" } => |s| insn::c04_rej(s, 77, 78, false);
     c04_rej_breq { prop: C04, feat: "c04", tier: quick, mode: leaf, unwind: 3, caps: "drop=1" } => |s| insn::c04_rej(s, 78, 79, false);
-    c04_rej_brne { prop: C04, feat: "c04", tier: thorough, mode: leaf, unwind: 3, caps: "drop=1" } => |s| insn::c04_rej(s, 79, 80, false);
-    c04_rej_brcs { prop: C04, feat: "c04", tier: thorough, mode: leaf, unwind: 3, caps: "drop=1" } => |s| insn::c04_rej(s, 80, 81, false);
-    c04_rej_brcc { prop: C04, feat: "c04", tier: thorough, mode: leaf, unwind: 3, caps: "drop=1" } => |s| insn::c04_rej(s, 81, 82, false);
-    c04_rej_brsh { prop: C04, feat: "c04", tier: thorough, mode: leaf, unwind: 3, caps: "drop=1" } => |s| insn::c04_rej(s, 82, 83, false);
-    c04_rej_brlo { prop: C04, feat: "c04", tier: thorough, mode: leaf, unwind: 3, caps: "drop=1" } => |s| insn::c04_rej(s, 83, 84, false);
-    c04_rej_brmi { prop: C04, feat: "c04", tier: thorough, mode: leaf, unwind: 3, caps: "drop=1" } => |s| insn::c04_rej(s, 84, 85, false);
-    c04_rej_brpl { prop: C04, feat: "c04", tier: thorough, mode: leaf, unwind: 3, caps: "drop=1" } => |s| insn::c04_rej(s, 85, 86, false);
-    c04_rej_brge { prop: C04, feat: "c04", tier: thorough, mode: leaf, unwind: 3, caps: "drop=1" } => |s| insn::c04_rej(s, 86, 87, false);
-    c04_rej_brlt { prop: C04, feat: "c04", tier: thorough, mode: leaf, unwind: 3, caps: "drop=1" } => |s| insn::c04_rej(s, 87, 88, false);
-    c04_rej_brhs { prop: C04, feat: "c04", tier: thorough, mode: leaf, unwind: 3, caps: "drop=1" } => |s| insn::c04_rej(s, 88, 89, false);
-    c04_rej_brhc { prop: C04, feat: "c04", tier: thorough, mode: leaf, unwind: 3, caps: "drop=1" } => |s| insn::c04_rej(s, 89, 90, false);
-    c04_rej_brts { prop: C04, feat: "c04", tier: thorough, mode: leaf, unwind: 3, caps: "drop=1" } => |s| insn::c04_rej(s, 90, 91, false);
-    c04_rej_brtc { prop: C04, feat: "c04", tier: thorough, mode: leaf, unwind: 3, caps: "drop=1" } => |s| insn::c04_rej(s, 91, 92, false);
-    c04_rej_brvs { prop: C04, feat: "c04", tier: thorough, mode: leaf, unwind: 3, caps: "drop=1" } => |s| insn::c04_rej(s, 92, 93, false);
-    c04_rej_brvc { prop: C04, feat: "c04", tier: thorough, mode: leaf, unwind: 3, caps: "drop=1" } => |s| insn::c04_rej(s, 93, 94, false);
-    c04_rej_brie { prop: C04, feat: "c04", tier: thorough, mode: leaf, unwind: 3, caps: "drop=1" } => |s| insn::c04_rej(s, 94, 95, false);
-    c04_rej_brid { prop: C04, feat: "c04", tier: thorough, mode: leaf, unwind: 3, caps: "drop=1" } => |s| insn::c04_rej(s, 95, 96, false);
+    c04_rej_brne { prop: C04, feat: "c04", tier: quick, mode: leaf, unwind: 3, caps: "drop=1" } => |s| insn::c04_rej(s, 79, 80, false);
+    c04_rej_brcs { prop: C04, feat: "c04", tier: quick, mode: leaf, unwind: 3, caps: "drop=1" } => |s| insn::c04_rej(s, 80, 81, false);
+    c04_rej_brcc { prop: C04, feat: "c04", tier: quick, mode: leaf, unwind: 3, caps: "drop=1" } => |s| insn::c04_rej(s, 81, 82, false);
+    c04_rej_brsh { prop: C04, feat: "c04", tier: quick, mode: leaf, unwind: 3, caps: "drop=1" } => |s| insn::c04_rej(s, 82, 83, false);
+    c04_rej_brlo { prop: C04, feat: "c04", tier: quick, mode: leaf, unwind: 3, caps: "drop=1" } => |s| insn::c04_rej(s, 83, 84, false);
+    c04_rej_brmi { prop: C04, feat: "c04", tier: quick, mode: leaf, unwind: 3, caps: "drop=1" } => |s| insn::c04_rej(s, 84, 85, false);
+    c04_rej_brpl { prop: C04, feat: "c04", tier: quick, mode: leaf, unwind: 3, caps: "drop=1" } => |s| insn::c04_rej(s, 85, 86, false);
+    c04_rej_brge { prop: C04, feat: "c04", tier: quick, mode: leaf, unwind: 3, caps: "drop=1" } => |s| insn::c04_rej(s, 86, 87, false);
+    c04_rej_brlt { prop: C04, feat: "c04", tier: quick, mode: leaf, unwind: 3, caps: "drop=1" } => |s| insn::c04_rej(s, 87, 88, false);
+    c04_rej_brhs { prop: C04, feat: "c04", tier: quick, mode: leaf, unwind: 3, caps: "drop=1" } => |s| insn::c04_rej(s, 88, 89, false);
+    c04_rej_brhc { prop: C04, feat: "c04", tier: quick, mode: leaf, unwind: 3, caps: "drop=1" } => |s| insn::c04_rej(s, 89, 90, false);
+    c04_rej_brts { prop: C04, feat: "c04", tier: quick, mode: leaf, unwind: 3, caps: "drop=1" } => |s| insn::c04_rej(s, 90, 91, false);
+    c04_rej_brtc { prop: C04, feat: "c04", tier: quick, mode: leaf, unwind: 3, caps: "drop=1" } => |s| insn::c04_rej(s, 91, 92, false);
+    c04_rej_brvs { prop: C04, feat: "c04", tier: quick, mode: leaf, unwind: 3, caps: "drop=1" } => |s| insn::c04_rej(s, 92, 93, false);
+    c04_rej_brvc { prop: C04, feat: "c04", tier: quick, mode: leaf, unwind: 3, caps: "drop=1" } => |s| insn::c04_rej(s, 93, 94, false);
+    c04_rej_brie { prop: C04, feat: "c04", tier: quick, mode: leaf, unwind: 3, caps: "drop=1" } => |s| insn::c04_rej(s, 94, 95, false);
+    c04_rej_brid { prop: C04, feat: "c04", tier: quick, mode: leaf, unwind: 3, caps: "drop=1" } => |s| insn::c04_rej(s, 95, 96, false);
     c04_rej_brbs { prop: C04, feat: "c04", tier: quick, mode: leaf, unwind: 3, caps: "drop=1" } => |s| insn::c04_rej(s, 96, 97, false);
-    c04_rej_brbc { prop: C04, feat: "c04", tier: thorough, mode: leaf, unwind: 3, caps: "drop=1" } => |s| insn::c04_rej(s, 97, 98, false);
+    c04_rej_brbc { prop: C04, feat: "c04", tier: quick, mode: leaf, unwind: 3, caps: "drop=1" } => |s| insn::c04_rej(s, 97, 98, false);
     c04_rej_sec { prop: C04, feat: "c04", tier: quick, mode: leaf, unwind: 3, caps: "drop=1" } => |s| insn::c04_rej(s, 98, 99, false);
-    c04_rej_sez { prop: C04, feat: "c04", tier: thorough, mode: leaf, unwind: 3, caps: "drop=1" } => |s| insn::c04_rej(s, 99, 100, false);
-    c04_rej_sen { prop: C04, feat: "c04", tier: thorough, mode: leaf, unwind: 3, caps: "drop=1" } => |s| insn::c04_rej(s, 100, 101, false);
-    c04_rej_sev { prop: C04, feat: "c04", tier: thorough, mode: leaf, unwind: 3, caps: "drop=1" } => |s| insn::c04_rej(s, 101, 102, false);
-    c04_rej_ses { prop: C04, feat: "c04", tier: thorough, mode: leaf, unwind: 3, caps: "drop=1" } => |s| insn::c04_rej(s, 102, 103, false);
-    c04_rej_seh { prop: C04, feat: "c04", tier: thorough, mode: leaf, unwind: 3, caps: "drop=1" } => |s| insn::c04_rej(s, 103, 104, false);
-    c04_rej_set { prop: C04, feat: "c04", tier: thorough, mode: leaf, unwind: 3, caps: "drop=1" } => |s| insn::c04_rej(s, 104, 105, false);
-    c04_rej_sei { prop: C04, feat: "c04", tier: thorough, mode: leaf, unwind: 3, caps: "drop=1" } => |s| insn::c04_rej(s, 105, 106, false);
-    c04_rej_clc { prop: C04, feat: "c04", tier: thorough, mode: leaf, unwind: 3, caps: "drop=1" } => |s| insn::c04_rej(s, 106, 107, false);
-    c04_rej_clz { prop: C04, feat: "c04", tier: thorough, mode: leaf, unwind: 3, caps: "drop=1" } => |s| insn::c04_rej(s, 107, 108, false);
-    c04_rej_cln { prop: C04, feat: "c04", tier: thorough, mode: leaf, unwind: 3, caps: "drop=1" } => |s| insn::c04_rej(s, 108, 109, false);
-    c04_rej_clv { prop: C04, feat: "c04", tier: thorough, mode: leaf, unwind: 3, caps: "drop=1" } => |s| insn::c04_rej(s, 109, 110, false);
-    c04_rej_cls { prop: C04, feat: "c04", tier: thorough, mode: leaf, unwind: 3, caps: "drop=1" } => |s| insn::c04_rej(s, 110, 111, false);
-    c04_rej_clh { prop: C04, feat: "c04", tier: thorough, mode: leaf, unwind: 3, caps: "drop=1" } => |s| insn::c04_rej(s, 111, 112, false);
-    c04_rej_clt { prop: C04, feat: "c04", tier: thorough, mode: leaf, unwind: 3, caps: "drop=1" } => |s| insn::c04_rej(s, 112, 113, false);
-    c04_rej_cli { prop: C04, feat: "c04", tier: thorough, mode: leaf, unwind: 3, caps: "drop=1" } => |s| insn::c04_rej(s, 113, 114, false);
+    c04_rej_sez { prop: C04, feat: "c04", tier: quick, mode: leaf, unwind: 3, caps: "drop=1" } => |s| insn::c04_rej(s, 99, 100, false);
+    c04_rej_sen { prop: C04, feat: "c04", tier: quick, mode: leaf, unwind: 3, caps: "drop=1" } => |s| insn::c04_rej(s, 100, 101, false);
+    c04_rej_sev { prop: C04, feat: "c04", tier: quick, mode: leaf, unwind: 3, caps: "drop=1" } => |s| insn::c04_rej(s, 101, 102, false);
+    c04_rej_ses { prop: C04, feat: "c04", tier: quick, mode: leaf, unwind: 3, caps: "drop=1" } => |s| insn::c04_rej(s, 102, 103, false);
+    c04_rej_seh { prop: C04, feat: "c04", tier: quick, mode: leaf, unwind: 3, caps: "drop=1" } => |s| insn::c04_rej(s, 103, 104, false);
+    c04_rej_set { prop: C04, feat: "c04", tier: quick, mode: leaf, unwind: 3, caps: "drop=1" } => |s| insn::c04_rej(s, 104, 105, false);
+    c04_rej_sei { prop: C04, feat: "c04", tier: quick, mode: leaf, unwind: 3, caps: "drop=1" } => |s| insn::c04_rej(s, 105, 106, false);
+    c04_rej_clc { prop: C04, feat: "c04", tier: quick, mode: leaf, unwind: 3, caps: "drop=1" } => |s| insn::c04_rej(s, 106, 107, false);
+    c04_rej_clz { prop: C04, feat: "c04", tier: quick, mode: leaf, unwind: 3, caps: "drop=1" } => |s| insn::c04_rej(s, 107, 108, false);
+    c04_rej_cln { prop: C04, feat: "c04", tier: quick, mode: leaf, unwind: 3, caps: "drop=1" } => |s| insn::c04_rej(s, 108, 109, false);
+    c04_rej_clv { prop: C04, feat: "c04", tier: quick, mode: leaf, unwind: 3, caps: "drop=1" } => |s| insn::c04_rej(s, 109, 110, false);
+    c04_rej_cls { prop: C04, feat: "c04", tier: quick, mode: leaf, unwind: 3, caps: "drop=1" } => |s| insn::c04_rej(s, 110, 111, false);
+    c04_rej_clh { prop: C04, feat: "c04", tier: quick, mode: leaf, unwind: 3, caps: "drop=1" } => |s| insn::c04_rej(s, 111, 112, false);
+    c04_rej_clt { prop: C04, feat: "c04", tier: quick, mode: leaf, unwind: 3, caps: "drop=1" } => |s| insn::c04_rej(s, 112, 113, false);
+    c04_rej_cli { prop: C04, feat: "c04", tier: quick, mode: leaf, unwind: 3, caps: "drop=1" } => |s| insn::c04_rej(s, 113, 114, false);
     // full 64-bit operand values (thorough)
     c04_wide_add { prop: C04, feat: "c04", tier: thorough, mode: leaf, unwind: 3, caps: "drop=1" } => |s| insn::c04_rej(s, 0, 1, true);
     c04_wide_adiw { prop: C04, feat: "c04", tier: thorough, mode: leaf, unwind: 3, caps: "drop=1" } => |s| insn::c04_rej(s, 12, 13, true);
@@ -594,4 +594,5 @@ harnesses! {
     c02_dir_segment { prop: C02, feat: "c02", tier: quick, mode: leaf, unwind: 4, caps: "drop=1" } => |s| dirsem::dir_segment(s);
     c06_dir_byte_lit { prop: C06, feat: "c06", tier: quick, mode: leaf, unwind: 4, caps: "drop=1" } => |s| dirsem::dir_byte(s, 0);
     c06_dir_byte_sym { prop: C06, feat: "c06", tier: quick, mode: leaf, unwind: 4, caps: "drop=1" } => |s| dirsem::dir_byte(s, 1);
+    c05_bin_unbound { prop: C05, feat: "c05", tier: quick, mode: full, unwind: 3, caps: "run=2,clone=1,drop=2" } => |s| c05::ev_bin_unbound(s);
 }
